@@ -281,6 +281,13 @@ def gen2(fn, tier):
                 kk = (key if not isinstance(key, np.ndarray) else key.tolist(), "arg%d as %s" % (p, kind))
                 yield (kk, (t2, ta[1]) if kw else t2, (l2, la[1]) if kw else l2, scale)
     if fn in ("genhkl_all", "genhkl_unique"):
+        # very long axes: a thin shell whose reflections have an index around 1000 (on l, on k)
+        for no in (2, 16, 47):
+            for c in ([3.0, 4.0, 2400.0, 90.0, 90.0, 90.0], [3.0, 2400.0, 4.0, 90.0, 90.0, 90.0]):
+                a = (c, 0.24295, 0.24305)
+                k = dict(sgno=no, output_stl=True)
+                yield ((no, "standard", c, "index ~1000"), (a, k), (a, k), ("kw", fn))
+    if fn in ("genhkl_all", "genhkl_unique"):
         bind_repo()
         from xfab import sg
 
@@ -397,12 +404,21 @@ def check_case(case):
                 r.violation(k, "sysabs results differ", {"hkl": box[j], "tools": a[j]}, {"laue": b[j]})
             r.nontrivial.add(k[:120])
             continue
+        from ..core import _args_unchanged, _snap_args
+
+        def split(a_):
+            return (a_[0], a_[1]) if (len(a_) == 2 and isinstance(a_[1], dict) and isinstance(a_[0], tuple)) else (a_, {})
+
+        snaps = [_snap_args(*split(ta)), _snap_args(*split(la))]
         np.random.seed(0)
         st, vt = call(ft, ta)
         np.random.seed(5)
         sl, vl = call(fl, la)
         r.evals += 1
         r.nontrivial.add(k[:160])
+        # neither module may modify the argument objects of its caller (who goes on to hand them to other functions)
+        _args_unchanged(r, k + ":tools", snaps[0], *split(ta))
+        _args_unchanged(r, k + ":laue", snaps[1], *split(la))
         # the same argument OBJECTS once more in each module: the answer must not change (an argument modified in place by the first
         # call, or a memo, would make the two modules disagree from the second call on)
         if st == "ok" and not (isinstance(scale, tuple) and scale and scale[0] in ("kw",)):
